@@ -28,11 +28,129 @@ var otherMethods = []string{"tools/list", "ping", "prompts/get"}
 
 type caseSpec struct {
 	No       int
-	Scenario string // chain | isolation
+	Scenario string // chain | isolation | rewrite
 	Chain    []beh
 	Kind     kit.Kind
-	Method   string
+	Method   string // the method the client sends
 	Form     string
+	Plan     *plan // rewrite scenario: what the method-rewriting middlewares set
+}
+
+// plan: the method the client sends and the methods the rewriting middlewares of the chain set, in chain order
+// (cyclically when the chain has more rewriters than the plan has targets).
+type plan struct {
+	Class   string // alias>known | known>known | known>unknown | unknown>unknown | two-step | same
+	Initial string
+	Targets []string
+}
+
+func (p *plan) name() string {
+	s := methodLabel(p.Initial)
+	for _, t := range p.Targets {
+		s += ">" + methodLabel(t)
+	}
+	return s
+}
+
+var plans = []plan{
+	{"alias>known", "tools/ls", []string{"tools/list"}},
+	{"alias>known", "x-vendor/call", []string{"tools/call"}},
+	{"alias>known", "x-vendor/prompt", []string{"prompts/get"}},
+	{"alias>known", " ", []string{"ping"}},
+	{"alias>known", "logging/setLevel", []string{"tools/call"}},
+	{"alias>known", "x-vendor/a", []string{"resources/list"}},
+	{"known>known", "tools/list", []string{"tools/call"}},
+	{"known>known", "tools/call", []string{"prompts/get"}},
+	{"known>known", "ping", []string{"tools/call"}},
+	{"known>known", "prompts/get", []string{"ping"}},
+	{"known>known", "tools/call", []string{"tools/list"}},
+	{"known>known", "tools/call", []string{"resources/read"}},
+	{"known>known", "resources/list", []string{"prompts/get"}},
+	{"known>unknown", "tools/call", []string{"x-vendor/do"}},
+	{"known>unknown", "ping", []string{"logging/setLevel"}},
+	{"known>unknown", "prompts/get", []string{" "}},
+	{"known>unknown", "tools/list", []string{"completion/complete"}},
+	{"unknown>unknown", "x-vendor/a", []string{"x-vendor/b"}},
+	{"two-step", "x-vendor/call", []string{"prompts/get", "tools/call"}},
+	{"two-step", "tools/call", []string{"x-vendor/do", "tools/call"}},
+	{"two-step", "tools/ls", []string{"tools/list", "ping"}},
+	{"same", "tools/call", []string{"tools/call"}},
+	{"same", "prompts/get", []string{"prompts/get"}},
+}
+
+// targetsFor assigns the plan's targets to the rewriting middlewares of the chain.
+func targetsFor(chain []beh, p *plan) []string {
+	out := make([]string, len(chain))
+	if p == nil {
+		return out
+	}
+	k := 0
+	for i, b := range chain {
+		if b.rewritesMethod() {
+			out[i] = p.Targets[k%len(p.Targets)]
+			k++
+		}
+	}
+	return out
+}
+
+func (sp caseSpec) methodSig() string {
+	if sp.Plan != nil {
+		return sp.Plan.name()
+	}
+	return methodLabel(sp.Method)
+}
+
+func hasRequestModifierBeyondQ(c []beh) bool {
+	for _, b := range c {
+		if b == bModIn || b.rewritesMethod() {
+			return true
+		}
+	}
+	return false
+}
+
+// chainsOver enumerates every chain of exactly length n over the alphabet.
+func chainsOver(alpha []beh, n int) [][]beh {
+	out := [][]beh{{}}
+	for l := 0; l < n; l++ {
+		var nx [][]beh
+		for _, c := range out {
+			for _, b := range alpha {
+				nx = append(nx, append(append([]beh{}, c...), b))
+			}
+		}
+		out = nx
+	}
+	return out
+}
+
+// buildRewriteChains: chains over the ten behaviours that contain at least one of I, M, N, W.
+func buildRewriteChains(r *vh.Run) [][]beh {
+	var chains [][]beh
+	full := r.Pick(2, 3)
+	for n := 1; n <= full; n++ {
+		for _, c := range chainsOver(tenBehaviours, n) {
+			if hasRequestModifierBeyondQ(c) {
+				chains = append(chains, c)
+			}
+		}
+	}
+	rng := r.Rand("rewrite-chains")
+	seen := map[string]bool{}
+	for len(seen) < r.Pick(120, 600) {
+		n := full + 1 + rng.Intn(4-full)
+		c := make([]beh, n)
+		for i := range c {
+			c[i] = tenBehaviours[rng.Intn(len(tenBehaviours))]
+		}
+		if !hasRequestModifierBeyondQ(c) || seen[chainString(c)] {
+			continue
+		}
+		seen[chainString(c)] = true
+		chains = append(chains, c)
+	}
+	return chains
 }
 
 // allChains enumerates every chain of exactly length n over the six behaviours.
@@ -86,6 +204,7 @@ func buildCases(r *vh.Run) []caseSpec {
 	add := func(sc string, c []beh, k kit.Kind, m, f string) {
 		cases = append(cases, caseSpec{No: len(cases), Scenario: sc, Chain: c, Kind: k, Method: m, Form: f})
 	}
+	extra := r.Pick(2, 2) // per chain and kind: that many methods off the dispatch table and that many unmodelled built-in ones
 	for ci, c := range buildChains(r) {
 		forms := formsFor(len(c))
 		for ki, k := range kinds {
@@ -94,6 +213,10 @@ func buildCases(r *vh.Run) []caseSpec {
 			}
 			for mi, m := range otherMethods {
 				add("chain", c, k, m, forms[(ci+ki+mi)%len(forms)])
+			}
+			for x := 0; x < extra; x++ {
+				add("chain", c, k, offTable[(ci*extra+ki+x)%len(offTable)], forms[(ci+ki+x)%len(forms)])
+				add("chain", c, k, inTable[(ci*extra+ki+x)%len(inTable)], forms[(ci+ki+x+1)%len(forms)])
 			}
 		}
 	}
@@ -104,8 +227,21 @@ func buildCases(r *vh.Run) []caseSpec {
 		}
 		forms := formsFor(len(c))
 		for ki, k := range kinds {
-			for mi, m := range []string{"tools/call", "ping", "prompts/get"} {
+			for mi, m := range []string{"tools/call", "ping", "prompts/get", "logging/setLevel", "x-vendor/do", "resources/list"} {
 				add("isolation", c, k, m, forms[(ci+ki+mi)%len(forms)])
+			}
+		}
+	}
+	for ci, c := range buildRewriteChains(r) {
+		forms := formsFor(len(c))
+		np := 5
+		if !r.Quick() && len(c) <= 2 {
+			np = len(plans)
+		}
+		for ki, k := range kinds {
+			for x := 0; x < np; x++ {
+				p := &plans[(ci*np+ki*7+x)%len(plans)]
+				cases = append(cases, caseSpec{No: len(cases), Scenario: "rewrite", Chain: c, Kind: k, Method: p.Initial, Form: forms[(ci+ki+x)%len(forms)], Plan: p})
 			}
 		}
 	}
@@ -183,6 +319,9 @@ func traceSymptom(want, got []mStage) string {
 		}
 	}
 	for i := range want {
+		if want[i].Meth != got[i].Meth {
+			return "method-seen-by-stage-differs"
+		}
 		if want[i].Tag != got[i].Tag {
 			return "request-seen-by-stage-differs"
 		}
@@ -204,8 +343,20 @@ func runCase(r *vh.Run, sp caseSpec) {
 	n := len(sp.Chain)
 	cs := newCaseState(n)
 	chs := chainString(sp.Chain)
-	label := fmt.Sprintf("%s chain=%s method=%s form=%s", sp.Kind, chs, sp.Method, sp.Form)
+	label := fmt.Sprintf("%s chain=%s method=%s form=%s", sp.Kind, chs, sp.methodSig(), sp.Form)
 	rng := r.Rand(fmt.Sprintf("case-%d", sp.No))
+	msig := sp.methodSig()
+
+	// the methods this case can reach; those the interpreter does not model need a reference answer
+	cs.targets = targetsFor(sp.Chain, sp.Plan)
+	env := &evalEnv{targets: cs.targets, base: func(m string) *baseAnswer { return baseFor(sp.Kind, m) }}
+	for _, m := range append([]string{sp.Method}, cs.targets...) {
+		if m != "" && !modelled(m) && baseFor(sp.Kind, m) == nil {
+			r.Count("cases_skipped_without_reference_answer", 1)
+			r.Inconclusive(fmt.Sprintf("%s: skipped, the middleware-free %s server gave no usable reference answer to %q", label, sp.Kind, m))
+			return
+		}
+	}
 
 	// the requests of this case
 	ids := make([]string, reqsPerCase)
@@ -221,7 +372,7 @@ func runCase(r *vh.Run, sp caseSpec) {
 	expectedCalls := int64(0)
 	for _, id := range ids {
 		var tr []mStage
-		wantVal[id] = eval(sp.Chain, 0, id, sp.Method, "t", nil, &tr)
+		wantVal[id] = eval(env, sp.Chain, 0, id, sp.Method, "t", nil, &tr)
 		wantTrace[id] = tr
 		for _, s := range tr {
 			if strings.HasSuffix(s.Stage, "-before") {
@@ -339,7 +490,7 @@ func runCase(r *vh.Run, sp caseSpec) {
 	}
 	for nonce := range traces {
 		if !sent[nonce] {
-			r.Violation(fmt.Sprintf("C15|%s|%s|%s|stage-for-unknown-request", sp.Scenario, sp.Kind, sp.Method),
+			r.Violation(fmt.Sprintf("C15|%s|%s|%s|stage-for-unknown-request", sp.Scenario, sp.Kind, msig),
 				fmt.Sprintf("%s: stages were recorded for request %q which was never sent", label, nonce), map[string]interface{}{"trace": traces[nonce]})
 		}
 	}
@@ -350,7 +501,7 @@ func runCase(r *vh.Run, sp caseSpec) {
 		want, got := wantTrace[o.ID], traces[o.ID]
 		v := wantVal[o.ID]
 		stop := stopClass(sp.Chain, o.ID)
-		wit := map[string]interface{}{"kind": sp.Kind, "chain": chs, "form": sp.Form, "method": sp.Method, "id": o.ID, "session": conns[o.Sess].SessionID,
+		wit := map[string]interface{}{"kind": sp.Kind, "chain": chs, "form": sp.Form, "method": sp.Method, "rewrites": cs.targets, "id": o.ID, "session": conns[o.Sess].SessionID,
 			"expected_trace": want, "observed_trace": got, "frames": o.Frames, "status": o.Status, "http_err": o.HTTPErr, "timed_out": o.Timed,
 			"expected_outcome": map[string]interface{}{"class": v.Class, "origin": v.Origin, "at": v.At, "code": v.Code, "modres": v.ResMarks}}
 		r.Count("stages_observed", int64(len(got)))
@@ -363,25 +514,25 @@ func runCase(r *vh.Run, sp caseSpec) {
 				r.Inconclusive(fmt.Sprintf("%s: request %s did not finish before the watchdog (trace %d of %d stages)", label, o.ID, len(got), len(want)))
 				continue
 			}
-			r.Violation(fmt.Sprintf("C15|%s|%s|%s|stop=%s|%s", sp.Scenario, sp.Kind, sp.Method, stop, traceSymptom(want, stagesOf(got))),
+			r.Violation(fmt.Sprintf("C15|%s|%s|%s|stop=%s|%s", sp.Scenario, sp.Kind, msig, stop, traceSymptom(want, stagesOf(got))),
 				fmt.Sprintf("%s: request %s: trace differs from the onion model", label, o.ID), wit)
 		}
 		for _, s := range got {
 			if s.ForeignMark {
 				ok = false
-				r.Violation(fmt.Sprintf("C15|%s|%s|%s|context-of-another-request", sp.Scenario, sp.Kind, sp.Method),
+				r.Violation(fmt.Sprintf("C15|%s|%s|%s|context-of-another-request", sp.Scenario, sp.Kind, msig),
 					fmt.Sprintf("%s: request %s: stage %s saw a context value derived for another request", label, o.ID, s.Stage), wit)
 				break
 			}
 		}
 
 		// 2. what the client received
-		if sym, what := judgeWire(o, v, sp.Method); sym != "" {
+		if sym, what := judgeWire(o, v); sym != "" {
 			ok = false
 			if sym == "missing-answer" && o.Timed && len(got) < len(want) {
 				r.Inconclusive(fmt.Sprintf("%s: request %s unanswered at the watchdog with an unfinished trace", label, o.ID))
 			} else {
-				r.Violation(fmt.Sprintf("C15|%s|%s|%s|outcome=%s|%s", sp.Scenario, sp.Kind, sp.Method, v.Origin, sym),
+				r.Violation(fmt.Sprintf("C15|%s|%s|%s|outcome=%s|%s", sp.Scenario, sp.Kind, msig, v.Origin, sym),
 					fmt.Sprintf("%s: request %s: %s", label, o.ID, what), wit)
 			}
 		}
@@ -390,8 +541,9 @@ func runCase(r *vh.Run, sp caseSpec) {
 		judgeSessions(r, sp, label, o, conns[o.Sess].SessionID, got, wit)
 
 		if ok {
-			r.Distinct(fmt.Sprintf("%s|%s|%s|%s|%s", sp.Scenario, sp.Kind, chs, sp.Method, sp.Form))
-			r.SetAdd("outcome_classes", fmt.Sprintf("%s/%s/%s", sp.Kind, sp.Method, v.Origin))
+			r.Distinct(fmt.Sprintf("%s|%s|%s|%s|%s", sp.Scenario, sp.Kind, chs, msig, sp.Form))
+			r.SetAdd("outcome_classes", fmt.Sprintf("%s/%s/%s", sp.Kind, msig, v.Origin))
+			countNewClasses(r, sp, want, got, v)
 		}
 	}
 
@@ -404,7 +556,7 @@ func runCase(r *vh.Run, sp caseSpec) {
 	if n > 0 {
 		wantForeign := int64(sessPerCase * n) // the initialize request of every handshake passes every middleware
 		if c, f := cs.calls.Load(), cs.foreign.Load(); c != expectedCalls+wantForeign || f != wantForeign {
-			r.Violation(fmt.Sprintf("C15|%s|%s|%s|invocation-total", sp.Scenario, sp.Kind, sp.Method),
+			r.Violation(fmt.Sprintf("C15|%s|%s|%s|invocation-total", sp.Scenario, sp.Kind, msig),
 				fmt.Sprintf("%s: middlewares were invoked %d times (%d for requests that are not ours), the model says %d (%d)", label, c, f, expectedCalls+wantForeign, wantForeign), nil)
 		}
 		if x := cs.notifInChain.Load(); x != 0 {
@@ -415,10 +567,54 @@ func runCase(r *vh.Run, sp caseSpec) {
 	r.Count("cases", 1)
 	r.SetAdd("chains", chs)
 	r.SetAdd("form_by_len", fmt.Sprintf("len=%d/%s/%s", n, sp.Form, sp.Kind))
-	r.SetAdd("methods", string(sp.Kind)+"/"+sp.Method)
+	r.SetAdd("methods", string(sp.Kind)+"/"+methodLabel(sp.Method))
+	if sp.Plan != nil {
+		r.SetAdd("rewrite_plans", string(sp.Kind)+"/"+sp.Plan.name())
+	}
 	if n >= 2 && sp.No%sampleStride == 0 {
-		r.Sample(map[string]interface{}{"kind": sp.Kind, "chain": chs, "form": sp.Form, "method": sp.Method, "id": outs[0].ID,
+		r.Sample(map[string]interface{}{"scenario": sp.Scenario, "kind": sp.Kind, "chain": chs, "form": sp.Form, "method": sp.Method, "rewrites": cs.targets, "id": outs[0].ID,
 			"expected_trace": wantTrace[outs[0].ID], "observed_trace": traces[outs[0].ID], "answer": firstOr(outs[0].Frames)})
+	}
+}
+
+// countNewClasses: evidence for the requests whose trace and answer matched the interpreter — what of the
+// off-table / rewrite classes was actually observed.
+func countNewClasses(r *vh.Run, sp caseSpec, want []mStage, got []obsStage, v mVal) {
+	if len(sp.Chain) == 0 {
+		return // no chain, nothing of the property to see
+	}
+	if sp.Plan == nil && isOffTable(sp.Method) {
+		r.Count("offtable_requests_matched", 1)
+		r.SetAdd("offtable_methods_matched", fmt.Sprintf("%s/%s/%s", sp.Kind, methodLabel(sp.Method), v.Origin))
+	}
+	if v.Origin == "handler" && v.Base != nil && v.Base.Class == "rpcerr" {
+		for _, s := range got {
+			if strings.HasSuffix(s.Stage, "-after") && s.Inner == fmt.Sprintf("rpcerr:%d", v.Base.Code) {
+				r.Count(fmt.Sprintf("core_error_%d_seen_by_middleware", v.Base.Code), 1)
+				break
+			}
+		}
+	}
+	ran := map[byte]bool{} // request-modifying behaviours that ran for this request
+	for _, st := range want {
+		var i int
+		if _, err := fmt.Sscanf(st.Stage, "m%d-before", &i); err == nil && strings.HasSuffix(st.Stage, "-before") && i < len(sp.Chain) {
+			if b := sp.Chain[i]; b.modifiesRequest() {
+				ran[byte(b)] = true
+			}
+		}
+	}
+	if v.Origin == "handler" {
+		for b := range ran {
+			r.Count(fmt.Sprintf("core_reached_through_modifier_%c", b), 1)
+		}
+	}
+	if sp.Plan != nil && (ran[byte(bRwCopy)] || ran[byte(bRwIn)] || ran[byte(bRwNew)]) {
+		r.Count("rewrite_requests_matched/"+sp.Plan.Class, 1)
+		if v.Origin == "handler" && v.Method != sp.Method {
+			r.Count("core_acted_on_rewritten_method", 1)
+			r.SetAdd("core_acted_on", fmt.Sprintf("%s/%s=>%s", sp.Kind, methodLabel(sp.Method), methodLabel(v.Method)))
+		}
 	}
 }
 
@@ -433,7 +629,8 @@ func firstOr(s []string) string {
 }
 
 // judgeWire compares the answer with the model's value; returns (symptom, description) or ("","").
-func judgeWire(o reqOutcome, v mVal, method string) (string, string) {
+func judgeWire(o reqOutcome, v mVal) (string, string) {
+	method := v.Method
 	var answers []string
 	for _, f := range o.Frames {
 		if _, has, hasMethod := kit.FrameID(f); has && !hasMethod {
@@ -452,6 +649,9 @@ func judgeWire(o reqOutcome, v mVal, method string) (string, string) {
 	}
 	if kit.CanonID(w.ID) != fmt.Sprintf("%q", o.ID) {
 		return "wrong-id", fmt.Sprintf("answered with id %s", string(w.ID))
+	}
+	if v.Origin == "handler" && v.Base != nil {
+		return judgeBase(w, v)
 	}
 	switch v.Class {
 	case "result":
@@ -485,7 +685,7 @@ func judgeWire(o reqOutcome, v mVal, method string) (string, string) {
 			}
 			return "", ""
 		}
-		want := normalise(v.wantResult(o.ID, method))
+		want := normalise(v.wantResult(o.ID))
 		if !reflect.DeepEqual(got, want) {
 			wb, _ := json.Marshal(want)
 			return "result-differs", fmt.Sprintf("result %s, the model says %s", string(w.Result), string(wb))
@@ -552,7 +752,7 @@ func judgeSessions(r *vh.Run, sp caseSpec, label string, o reqOutcome, sessID st
 		}
 		sig := fmt.Sprintf("C15|%s|%s-session|%s", sp.Kind, where, sym)
 		if where == "handler" {
-			sig = fmt.Sprintf("C15|%s|%s-session|%s|%s", sp.Kind, where, sp.Method, sym)
+			sig = fmt.Sprintf("C15|%s|%s-session|%s|%s", sp.Kind, where, s.Meth, sym)
 		}
 		if reported[sig] {
 			continue
@@ -638,8 +838,9 @@ func main() {
 	kit.Silence()
 	r := vh.NewRun("C15", "exploration")
 	reqsPerCase, sessPerCase = r.Pick(8, 16), r.Pick(2, 4)
+	acquireBaselines(r)
 	cases := buildCases(r)
-	sampleStride = len(cases)/6 + 1
+	sampleStride = len(cases)/9 + 1
 	workers := 8
 	ch := make(chan caseSpec)
 	var wg sync.WaitGroup
@@ -680,13 +881,28 @@ func main() {
 	r.Require(len(lk) == 5, "chain lengths covered: %v", lk)
 	r.Require(r.Counter("stages_observed") > 0, "no stage was observed")
 	r.Require(r.Counter("notifications_delivered") > 0, "no notification reached its handler")
+	// the classes added for "every request" / "modify-request changes more than params": nothing observed, nothing claimed
+	r.Require(r.Counter("offtable_requests_matched") > 0, "no request for a method off the dispatch table was seen passing a chain")
+	r.Require(r.Counter("core_error_-32601_seen_by_middleware") > 0, "no middleware saw the core's method-not-found answer as its inner result")
+	r.Require(r.Counter("core_acted_on_rewritten_method") > 0, "the core was never seen acting on a method a middleware had set")
+	for _, c := range []string{"alias>known", "known>known", "known>unknown", "unknown>unknown", "two-step", "same"} {
+		r.Require(r.Counter("rewrite_requests_matched/"+c) > 0, "no request of the rewrite class %s matched the interpreter", c)
+	}
+	for _, b := range []beh{bModReq, bModIn, bRwCopy, bRwIn, bRwNew} {
+		r.Require(r.Counter(fmt.Sprintf("core_reached_through_modifier_%c", b)) > 0, "the core was never reached through a modify-request middleware of form %c", b)
+	}
 
 	r.Finish("chains over {pass P, modify-request Q, modify-result R, short-circuit result S, short-circuit JSON-RPC error E, fail F}: thorough = all 1555 of length 0..4, quick = all 43 of length <= 2 plus 150 seeded of length 3..4; "+
 		"x server kinds {S-json, S-sse, L-sse} x methods {tools/call with every option form; tools/list, ping, prompts/get with rotating forms} x option forms {single WithMiddleware(a,b,..), one option per middleware, split 2+rest; none/empty for length 0} (WithSSEMiddleware on the legacy server); "+
-		"plus isolation chains whose middleware acts only on ids ending in -bad. Per case 8 (thorough: 16) concurrent requests from 2 (4) raw sessions held together at a gate inside one middleware, then custom and roots notifications. "+
+		"every chain also with 2 methods off the dispatch table (logging/setLevel, x-vendor/do, \" \", Tools/Call, tools/call/, rpc.discover, tools) and 2 unmodelled built-in ones (completion/complete, resources/subscribe|unsubscribe|list|read|templates/list, prompts/list), rotating; "+
+		"plus isolation chains whose middleware acts only on ids ending in -bad; "+
+		"plus scenario rewrite: chains over the ten behaviours (the six + I params rewritten in place, M method rewritten on a copy, N method rewritten in place, W whole new request object) with at least one of I/M/N/W "+
+		"(quick: all of length <= 2 plus 120 seeded of length 3..4; thorough: all of length <= 3 plus 600 seeded of length 4) x kinds x rotating rewrite plans (alias>known, known>known, known>unknown, unknown>unknown, two-step, same). "+
+		"Notifications posted after the requests include ones named like requests (tools/call, x-vendor/do, logging/setLevel). Per case 8 (thorough: 16) concurrent requests from 2 (4) raw sessions held together at a gate inside one middleware, then custom and roots notifications. "+
 		"A case is distinct by (scenario, kind, chain, method, form) and counts when trace and wire answer of a request matched the reference interpreter.",
 		[]string{
 			"the handler stage is observable only for tools/call and prompts/get; for ping and tools/list 'the handler ran' is judged by the answer",
+			"for every other method (off the dispatch table or unmodelled built-in) the core's answer is whatever a middleware-free server of the same kind and registrations answers (asked twice at start, time-of-day members removed); the property is that the innermost middleware sees an answer of that class and the client receives it after the modify-result stages",
 			"middlewares let requests that are not the check's own (initialize of the handshake) pass untouched",
 			"GetSessionFromContext is recorded, only a foreign session through it is judged; the documented accessor for middlewares is ClientSessionFromContext",
 			"interleavings are sampled (gate release), not enumerated",
